@@ -55,6 +55,12 @@ CHECKS = {
         "text": "Round.tla states the grid/direction/offset relation on exact decimals; TLC proves existence, uniqueness (up/down), one-step distance and idempotence on a rational grid, and that in the specified pipeline the rounding wrapper sits on every rule with a key and on no derived node. An identity probe rule goes through the public API for 5 bases x 3 directions x 3 offsets on crafted values with its derived yearly/household nodes, missing specifications must raise, and every rounded rule of the real environment is compared rounded vs unrounded on identical inputs.",
         "note": "`nearest` ties accepted either way; binary floating point slack 1e-9 grid step on the closed side; integer witness supplied by the harness and verified by TLC; rounding specs taken from the environment (their resolution by date is C07).",
     },
+    "C09": {
+        "level": "translation_validation",
+        "technique": "TLA+ transcription of the AST rewrite (Vec.tla Visit) with a scalar and an array semantics (VecSem.tla); TLC enumerates restricted-style programs (MC_Vec) whose predicted outcomes are replayed into the real make_vectorizable; TLC validates rewrite output, values and purity for every internal rule (Trace_Vec)",
+        "text": "Vec.tla is the rewrite as implemented and VecSem.tla gives Python's scalar semantics and numpy's array semantics; TLC enumerates thousands of programs of the documented restricted style, predicts for each whether the rewrite rejects it, what the scalar function returns and what the array form returns or whether it raises, and proves that every silent mistranslation is explained by one of three documented quirk classes. Every program is rendered to Python and run through the real make_vectorizable: rewrite outcome, scalar and array results must equal the predictions (0 divergences) and real scalar vs array results are judged by TLC. For every internal rule the transformer's output AST must equal Visit(original), the array form is evaluated on seeded argument arrays against the scalar rule row by row, and the rule's module namespace must be unchanged by the call.",
+        "note": "Integer/boolean domain and arrays of length 2 in the model; program menu (13 statement shapes x conditions x expressions), not the full grammar; real rules on seeded arguments (rows on which the scalar rule raises are discarded); structural divergence between transformer and Vec.tla is reported as divergence, a VIOLATION is a silent numeric disagreement or impurity.",
+    },
 }
 
 NOT_APPLICABLE = {}
